@@ -21,11 +21,19 @@ group qualifier, type / entity names in declarations).  Each case is a pair that
 accepted, the faulted file rejected.  Constructs in which the unchanged tree swallows a fault (open findings) key as
 `undefined reference <construct> x <tool>|accepted`; the fixed matrix is their deterministic probe and the seeded random
 part of the matrix stays out of them.
+
+Interface matrix (vf/c04_iface.py): multi-schema files in which items travel over USE FROM / REFERENCE FROM clauses - chains of
+2-4 schemas, diamonds, fans, cycles x link style (partial, renamed, whole schema) x 1-5 items of every interfaceable kind - each
+instantiated with permutations of the schema names over the roles and several file orders (which schema the resolver meets first
+is the hash order of the names).  Valid shapes must be accepted by all four tools with their success marker and an output;
+the same shapes with ONE hop broken must be rejected by all four.  Keys `valid interface <family> x <tool>|<symptom>`,
+`<what the broken hop is> x <tool>|<symptom>`.
 """
 LEVEL = 'fault_enumeration'
 from .. import c04_faults as F
 from .. import c04_run as R
 from .. import c04_refs as Q
+from .. import c04_iface as I
 from .. import run
 
 PER_FILE = 16
@@ -169,6 +177,109 @@ def ref_matrix(chk, quick):
     return len(cases)
 
 
+def iface_matrix(chk, quick):
+    """Multi-schema interface matrix (vf/c04_iface.py): valid shapes x naming permutations must be accepted by all four tools
+    (and present their result), shapes with one broken hop must be rejected by all four."""
+    # deterministic probe of the open finding (whole-schema REFERENCE of a schema that USEs items); the matrix lets the
+    # importing schema use such items only when the tree under test resolves them in the probe
+    pname, pcase = I.probe_ref_all()
+    trs = run_all(pcase.text)
+    chk.ev(len(trs))
+    chk.count('probes_run')
+    for tr in trs:
+        chk.seen('probe', pname, tr.tool, tr.verdict)
+    for key, what in judge_valid(trs, 'probe (%s)' % pname):
+        chk.violation(key, what, {'input.exp': pcase.text}, dict(probe=pname, case=pcase.describe(), runs=[tr.brief() for tr in trs]))
+    sees_used = all(tr.verdict == 'accepted' for tr in trs)
+    chk.count('interface matrix: whole-schema REFERENCE over USEd items %s' % ('covered' if sees_used else 'masked (open finding)'))
+
+    # second open finding: USE FROM <whole schema> also shows what that schema only REFERENCEs (invalid file accepted)
+    fcase = I.probe_use_all_over_reference()
+    trs = run_all(fcase.text)
+    chk.ev(len(trs))
+    chk.count('probes_run')
+    for tr in trs:
+        chk.seen('probe', fcase.spec.shape, tr.tool, tr.verdict)
+    for key, what in judge_fault(trs, fcase.fault):
+        chk.violation(key, what, {'input.exp': fcase.text}, dict(probe=fcase.spec.shape, case=fcase.describe(), runs=[tr.brief() for tr in trs]))
+    leak = all(tr.verdict == 'accepted' for tr in trs)
+    chk.count('interface matrix: whole-schema USE over REFERENCEd items %s' % ('masked (open finding)' if leak else 'covered'))
+    # third: a constant in a partial REFERENCE list (the code generators take it for an entity); statically masked in the matrix
+    pname, ptext = I.PROBE_REF_CONSTANT
+    trs = run_all(ptext)
+    chk.ev(len(trs))
+    chk.count('probes_run')
+    for tr in trs:
+        chk.seen('probe', pname, tr.tool, tr.verdict)
+    for key, what in judge_valid(trs, 'probe (%s)' % pname):
+        chk.violation(key, what, {'input.exp': ptext}, dict(probe=pname, runs=[tr.brief() for tr in trs]))
+
+    valid, faulted = I.cases(chk.seed, chk.tier, sees_used, leak)
+
+    # every case goes through check-express (the front end all four tools share); quick tier: every third case also through ONE
+    # of the three back ends (rotating with the case number and the seed), the first naming of every valid shape (every third
+    # faulted shape) through all four; thorough tier: everything through all four
+    def plan(cs, every):
+        first, out = {}, []
+        for i, c in enumerate(cs):
+            if not quick:
+                out.append((c, R.TOOLS))
+            elif id(c.spec) not in first:
+                first[id(c.spec)] = len(first)
+                out.append((c, R.TOOLS if first[id(c.spec)] % every == 0 else R.TOOLS[:1]))
+            elif (i + chk.seed) % 3 == 0:
+                out.append((c, (R.TOOLS[0], R.TOOLS[1 + ((i + chk.seed) // 3) % 3])))
+            else:
+                out.append((c, R.TOOLS[:1]))
+        return out
+
+    def go(ct):
+        return ct[0], [R.run_tool(t, ct[0].text) for t in ct[1]]
+    vres = run.pmap(go, plan(valid, 1))
+    sampled = set()
+    for c, trs in vres:
+        kind = 'interface %s' % c.spec.family
+        chk.ev(len(trs))
+        chk.tag('iface valid:%s' % c.spec.family)
+        chk.tag('iface shape:%s' % c.spec.shape)
+        chk.tag('iface schemas=%d' % len(c.spec.roles))
+        for tr in trs:
+            chk.seen('iface valid', c.spec.shape, tuple(c.names[r] for r in c.spec.roles), tuple(c.order), tr.tool, tr.verdict)
+            chk.count('interface valid runs %s: %s' % (tr.tool, tr.verdict))
+            if tr.r.timed_out:
+                chk.inconc('watchdog fired: %s on valid interface case %s' % (tr.tool, c.spec.shape))
+        out = judge_valid(trs, kind)
+        for tr in trs:
+            if tr.verdict != 'accepted':
+                continue
+            if not tr.markers:
+                out.append(('valid %s x %s|accepted without its success marker' % (kind, tr.tool), (tr.r.out[-300:] + tr.r.err[-300:])))
+            if tr.tool != 'check-express' and not (tr.artefacts() if tr.tool != 'exp2python' else [f for f in tr.files if f.endswith('.py')]):
+                out.append(('valid %s x %s|accepted but nothing written' % (kind, tr.tool), 'files: %s' % tr.files[:8]))
+        for key, what in out:
+            chk.violation(key, '%s [%s; %s]' % (what, c.spec.shape, c.tag), {'input.exp': c.text}, dict(case=c.describe(), runs=[tr.brief() for tr in trs]))
+        if c.spec.family not in sampled and len(sampled) < 2 and len(c.spec.roles) >= 3 and 'use <- use' in c.spec.shape + ' use <- use':
+            sampled.add(c.spec.family)
+            chk.sample(dict(kind='valid interface case', case=c.describe(), text=c.text, runs=[tr.brief() for tr in trs]), limit=8)
+    fres = run.pmap(go, plan(faulted, 3))
+    for c, trs in fres:
+        cls = c.fault
+        chk.ev(len(trs))
+        chk.tag('iface fault:%s' % cls)
+        chk.tag('iface fault shape:%s' % c.spec.shape)
+        for tr in trs:
+            chk.seen('iface fault', c.spec.shape, tuple(c.names[r] for r in c.spec.roles), tuple(c.order), tr.tool)
+            chk.count('interface fault runs %s: %s' % (tr.tool, tr.verdict))
+            if tr.r.timed_out:
+                chk.inconc('watchdog fired: %s on faulted interface case %s' % (tr.tool, c.spec.shape))
+        for key, what in judge_fault(trs, cls):
+            chk.violation(key, '%s [%s; %s]' % (what, c.spec.shape, c.tag), {'input.exp': c.text}, dict(case=c.describe(), runs=[tr.brief() for tr in trs]))
+    chk.count('interface shapes (valid)', len(set(c.spec.shape for c in valid)))
+    chk.count('interface shapes (one hop broken)', len(set(c.spec.shape for c in faulted)))
+    chk.count('interface namings (role -> schema name, file order)', len(set((tuple(c.names[r] for r in c.spec.roles), tuple(c.order)) for c in valid)))
+    return len(valid), len(faulted)
+
+
 def main(chk):
     quick = chk.tier == 'quick'
     n_valid, n_multi = (40, 10) if quick else (600, 150)
@@ -238,6 +349,9 @@ def main(chk):
     # ---- reference faults: context x qualifier-path matrix (control + faulted file per case)
     n_refs = ref_matrix(chk, quick)
 
+    # ---- multi-schema interface matrix: shapes x link styles x item kinds x naming permutations
+    n_ifv, n_iff = iface_matrix(chk, quick)
+
     # ---- probes
     name, text = PROBE_VALID_NO_ATTR
     trs = run_all(text)
@@ -269,8 +383,12 @@ def main(chk):
              'rotating over %d fault classes; each input x 4 tools; distinct_nontrivial = distinct (fault class, variant, tool) resp. '
              '(valid kind, tool, verdict) triples judged; plus %d reference-fault cases of vf/c04_refs.py (fixed matrices context x '
              'reference kind x qualifier path / SELECT member mix, and seeded picks from the full product), each a control/faulted pair '
-             'differing in one name, faulted file x 4 tools; distinct = (class, context, kind, tool)'
-             % (n_multi, n_valid, PER_FILE, len(F.CLASS_IDS) - 1, n_refs),
+             'differing in one name, faulted file x 4 tools; distinct = (class, context, kind, tool); plus the multi-schema interface '
+             'matrix of vf/c04_iface.py: %d valid files (chains of 2-4 schemas, diamonds, fans, cycles x link style USE / USE AS / '
+             'whole-schema USE / REFERENCE / REFERENCE AS / whole-schema REFERENCE x 1-5 items of every interfaceable kind x '
+             'permutations of the schema names over the roles x file orders) and %d files with one hop broken; distinct = (shape, '
+             'role naming, file order, tool)'
+             % (n_multi, n_valid, PER_FILE, len(F.CLASS_IDS) - 1, n_refs, n_ifv, n_iff),
         assumptions=['generated valid files are valid EXPRESS and each mutant is invalid by construction (vf/c04_faults.py)',
                      'tools are taken from the plain (RelWithDebInfo) build of the current working tree',
                      'exp2python dies (SIGABRT) on valid schemas (entity attribute: strdup without prototype, C18; renamed USE/REFERENCE item: NULL '
@@ -278,4 +396,8 @@ def main(chk):
                      'success path is observed on the attribute-less probe and on every schema it does not die on',
                      'wrong argument count in a call is diagnosed by stepcode as a WARNING and is judged by C20 only',
                      'reference matrix: the control of each case is valid EXPRESS and the faulted file differs from it only by one identifier '
-                     'that is declared nowhere; quick tier runs the three back ends on an eighth of the controls (all go through check-express)'])
+                     'that is declared nowhere; quick tier runs the three back ends on an eighth of the controls (all go through check-express)',
+                     'interface matrix: visibility follows ISO 10303-11 clause 11 (a USEd item may be handed on, a REFERENCEd one may not; '
+                     'whole-schema USE / REFERENCE show what the schema declares or has USEd; functions, procedures and constants only by '
+                     'REFERENCE from the declaring schema); the same object reached by two routes is one object; quick tier: each case x '
+                     'check-express, every third also x one rotating back end, first naming of each valid shape x all four tools'])
